@@ -39,6 +39,15 @@ pub fn available() -> bool {
     Command::new("cargo").args(["+nightly", "miri", "--version"]).output().map(|o| o.status.success()).unwrap_or(false)
 }
 
+fn class_of(out: &str, workload: u64) -> &'static str {
+    match (workload >= 100, out.contains("MISMATCH")) {
+        (false, true) => "concurrent-render-differs",
+        (false, false) => "concurrent-render-undefined-behaviour",
+        (true, true) => "concurrent-compile-differs",
+        (true, false) => "concurrent-compile-undefined-behaviour",
+    }
+}
+
 fn first_error(text: &str) -> String {
     let mut lines = text.lines().skip_while(|l| !(l.starts_with("error") || l.starts_with("MISMATCH")));
     let head = lines.next().unwrap_or("miri reported a failure").to_string();
@@ -53,14 +62,26 @@ pub struct PassResult {
 }
 
 pub fn pass(quick: bool) -> Result<PassResult, String> {
+    pass_for("C20", quick)
+}
+
+/// C20: renders of one compiled value (workloads 0..8); C15: overlapping parse+compile of one text
+/// (workloads 100..108 of the same program).
+pub fn pass_for(prop: &'static str, quick: bool) -> Result<PassResult, String> {
+    let c15 = prop == "C15";
     let mut ev = Map::new();
     if !available() {
         ev.insert("status".into(), json!("skipped: cargo +nightly miri is not available"));
-        println!("C20 miri pass: skipped (cargo +nightly miri not available)");
+        println!("{prop} miri pass: skipped (cargo +nightly miri not available)");
         return Ok(PassResult { exit: 0, violations: 0, evidence: ev });
     }
     let timer = coord::Timer::start();
-    let (workloads, seeds): (Vec<u64>, u64) = if quick { (vec![1, 4], 8) } else { ((0..8).collect(), 64) };
+    let (workloads, seeds): (Vec<u64>, u64) = match (c15, quick) {
+        (false, true) => (vec![1, 4], 8),
+        (false, false) => ((0..8).collect(), 64),
+        (true, true) => (vec![101, 106], 4),
+        (true, false) => ((100..108).collect(), 32),
+    };
     let mut executions = 0;
     for w in &workloads {
         let (code, text) = run_miri(&format!("-Zmiri-many-seeds=0..{seeds}"), *w)?;
@@ -71,7 +92,7 @@ pub fn pass(quick: bool) -> Result<PassResult, String> {
         if text.contains("could not compile") || text.contains("error: failed to") {
             // a tree Miri cannot build or interpret: not a verdict
             ev.insert("status".into(), json!(format!("skipped: the program does not build under miri: {}", first_error(&text))));
-            println!("C20 miri pass: skipped (does not build under miri)");
+            println!("{prop} miri pass: skipped (does not build under miri)");
             return Ok(PassResult { exit: 0, violations: 0, evidence: ev });
         }
         // find the smallest failing seed for an exact replay
@@ -86,18 +107,18 @@ pub fn pass(quick: bool) -> Result<PassResult, String> {
         let (seed, out) = failing.unwrap_or((0, text));
         if out.contains("unsupported operation") {
             ev.insert("status".into(), json!(format!("skipped: {}", first_error(&out))));
-            println!("C20 miri pass: skipped (operation not supported by miri)");
+            println!("{prop} miri pass: skipped (operation not supported by miri)");
             return Ok(PassResult { exit: 0, violations: 0, evidence: ev });
         }
-        let class = if out.contains("MISMATCH") { "concurrent-render-differs" } else { "concurrent-render-undefined-behaviour" };
+        let class = class_of(&out, *w);
         let detail = first_error(&out);
-        let path = coord::verif_root().join("replays").join(format!("C20-miri-w{w}-s{seed}.json"));
+        let path = coord::verif_root().join("replays").join(format!("{prop}-miri-w{w}-s{seed}.json"));
         coord::write_json(
             &path,
-            &json!({"property": "C20", "kind": "miri", "class": class, "detail": detail, "workload": w, "miri_seed": seed, "miri_flags": FLAGS}),
+            &json!({"property": prop, "kind": "miri", "class": class, "detail": detail, "workload": w, "miri_seed": seed, "miri_flags": FLAGS}),
         )?;
-        println!("violation class={class} detail: overlapping scheme()/io_map() calls under Miri, workload {w}, seed {seed}: {detail}");
-        println!("VIOLATION property=C20 replay={}", path.display());
+        println!("violation class={class} detail: overlapping {} under Miri, workload {w}, seed {seed}: {detail}", if c15 { "parse()/compile() calls on one text" } else { "scheme()/io_map() calls" });
+        println!("VIOLATION property={prop} replay={}", path.display());
         ev.insert("replay".into(), json!(path.display().to_string()));
         ev.insert("status".into(), json!("violation"));
         return Ok(PassResult { exit: 1, violations: 1, evidence: ev });
@@ -109,9 +130,13 @@ pub fn pass(quick: bool) -> Result<PassResult, String> {
     ev.insert("wall_s".into(), json!((timer.secs() * 10.0).round() / 10.0));
     ev.insert(
         "what".into(),
-        json!("the unmodified library interpreted by Miri: 2-3 std threads x 3 scheme() calls + io_map() on one compiled expression, each result compared with the sequential one; Miri's seeded scheduler decides the interleaving, its data-race and aliasing checkers watch every access"),
+        json!(if c15 {
+            "the unmodified library interpreted by Miri: 2-3 std threads parse and compile one text twice each at the same time, keep the trees and drop them in a burst; every dump, program and table compared with the sequential one; Miri's seeded scheduler decides the interleaving, its data-race and aliasing checkers watch every access"
+        } else {
+            "the unmodified library interpreted by Miri: 2-3 std threads x 3 scheme() calls + io_map() on one compiled expression, each result compared with the sequential one; Miri's seeded scheduler decides the interleaving, its data-race and aliasing checkers watch every access"
+        }),
     );
-    println!("C20 miri pass: {} workloads x {seeds} seeds, no data race, no mismatch, {:.1}s", workloads.len(), timer.secs());
+    println!("{prop} miri pass: {} workloads x {seeds} seeds, no data race, no mismatch, {:.1}s", workloads.len(), timer.secs());
     Ok(PassResult { exit: 0, violations: 0, evidence: ev })
 }
 
@@ -140,12 +165,13 @@ pub fn replay_file(path: &Path, expect: Option<&str>) -> i32 {
                 eprintln!("harness error: the program does not build under miri");
                 return 2;
             }
-            let class = if out.contains("MISMATCH") { "concurrent-render-differs" } else { "concurrent-render-undefined-behaviour" };
+            let class = class_of(&out, w);
+            let prop = doc["property"].as_str().unwrap_or("C20").to_string();
             if let Some(e) = expect {
                 return if e == class { 1 } else { 0 };
             }
             println!("replay {}: class={class} {}", path.display(), first_error(&out));
-            println!("VIOLATION property=C20 replay={}", path.display());
+            println!("VIOLATION property={prop} replay={}", path.display());
             1
         }
     }
